@@ -581,6 +581,40 @@ pub fn run_c20w(ctx: &mut Ctx) {
     }
 }
 
+/// c01n: a server in a process that never started the `safina` timer thread (a legal configuration: the library needs the
+/// timer only to pace retries after accept errors).  Requests that arrive late, in pieces, or after a pause on a kept-alive
+/// connection must be served as usual.
+pub fn run_c01n(ctx: &mut Ctx) {
+    if !ctx.mine(0) { return; }
+    let obs = guard(move || {
+        let ex = safina::executor::Executor::new(1, 2).unwrap();
+        let b = HttpServerBuilder::new().max_conns(8).listen_addr("127.0.0.1:0".parse().unwrap());
+        let (addr, stopped) = ex.block_on(b.spawn(|_req: Request| Response::text(200, "ok"))).unwrap();
+        std::mem::forget(stopped);
+        let one = |parts: &[&[u8]], pause_first: bool| -> String {
+            let mut c = TcpStream::connect(addr).unwrap();
+            let _ = c.set_read_timeout(Some(Duration::from_secs(4)));
+            if pause_first { std::thread::sleep(Duration::from_millis(60)); }
+            let mut out = Vec::new();
+            for (i, p) in parts.iter().enumerate() {
+                if i > 0 { std::thread::sleep(Duration::from_millis(60)); }
+                if c.write_all(p).is_err() { return "wfail".to_string(); }
+                if p.ends_with(b"\r\n\r\n") {
+                    let mut acc = Vec::new();
+                    if !read_one_response(&mut c, &mut acc) { return format!("{}closed", out.join("+")); }
+                    out.push(String::from_utf8_lossy(&acc).split(' ').nth(1).unwrap_or("?").to_string());
+                }
+            }
+            out.join("+")
+        };
+        let a = one(&[b"GET /a HTTP/1.1\r\n\r\n"], true);
+        let b2 = one(&[b"GET /b HTT", b"P/1.1\r\nx: y\r\n\r\n"], false);
+        let c3 = one(&[b"GET /c HTTP/1.1\r\n\r\n", b"GET /d HTTP/1.1\r\n\r\n"], false);
+        format!("late={a} split={b2} keepalive={c3}")
+    });
+    ctx.emit("c01n", &["-"], &obs);
+}
+
 /// c01l: requests that cannot be read (and ordinary ones) while the application's logger has stopped: the connection task
 /// must still answer with the error's response — never die silently.
 pub fn run_c01l(ctx: &mut Ctx) {
@@ -707,6 +741,10 @@ pub fn run_c10(ctx: &mut Ctx) {
                 if ctx.mine(idx) && framing == "e" && (ctx.thorough() || off == 1 || off == 4096 || off == len - 1) {
                     let req = format!("POST:/r0:{framing}:{body}:g1000000;GET:/r1:n::n200");
                     case(ctx, "c10", "100", "1", &format!("rst{cut}"), &req);
+                    // … and for a body of undeclared length (announced with Expect): a reset is not the end of the body
+                    let req = format!("POST:/r0:v:{body}:g1000000");
+                    let hl = request_bytes(&req).0.len() - len;
+                    case(ctx, "c10", "100", "1", &format!("rst{}", hl + off.min(len)), &req);
                 }
                 // … and the same abandonment while all handler threads are busy with other connections
                 idx += 1;
